@@ -1,0 +1,34 @@
+//go:build verif
+
+package v2
+
+import (
+	"log/slog"
+	"time"
+
+	"github.com/go-openapi/runtime/middleware"
+
+	silence_ops "github.com/prometheus/alertmanager/api/v2/restapi/operations/silence"
+	"github.com/prometheus/alertmanager/silence"
+)
+
+// VerifSilenceAPI returns an API that serves only the silence handlers (as the package's own tests build it).
+func VerifSilenceAPI(s *silence.Silences, l *slog.Logger) *API {
+	return &API{uptime: time.Now(), silences: s, logger: l}
+}
+
+func (api *API) VerifPostSilences(p silence_ops.PostSilencesParams) middleware.Responder {
+	return api.postSilencesHandler(p)
+}
+
+func (api *API) VerifDeleteSilence(p silence_ops.DeleteSilenceParams) middleware.Responder {
+	return api.deleteSilenceHandler(p)
+}
+
+func (api *API) VerifGetSilence(p silence_ops.GetSilenceParams) middleware.Responder {
+	return api.getSilenceHandler(p)
+}
+
+func (api *API) VerifGetSilences(p silence_ops.GetSilencesParams) middleware.Responder {
+	return api.getSilencesHandler(p)
+}
